@@ -54,6 +54,8 @@ LEAVES: Dict[str, Sp] = {
     "lit_mix": lit(1, "a"),
     "lit_b": lit(True, "t"),
     "enum": enum("E", 1, "x"),
+    "enum_mix_s": enum("Ems", "u", "v", mixin="str"),
+    "enum_mix_i": enum("Emi", 1, 2, mixin="int"),
     "enum_s": enum("Es", "u", "v"),
     "int_rng": ann(INT, min=0, max=10),
     "int_exc": ann(INT, exc_min=0, mult_of=3),
@@ -65,7 +67,7 @@ LEAVES: Dict[str, Sp] = {
     "sub_i": subprim("MyInt", INT),
     "sub_s": subprim("MyStr", STR),
 }
-HASHABLE = {"int", "float", "str", "bool", "lit_i", "lit_s", "enum", "int_rng", "str_len", "nt"}
+HASHABLE = {"int", "float", "str", "bool", "lit_i", "lit_s", "enum", "enum_mix_s", "enum_mix_i", "int_rng", "str_len", "nt"}
 
 
 def wrappers(name: str, x: Sp) -> Dict[str, Sp]:
@@ -476,7 +478,7 @@ UNION_EXTRA: Dict[str, Tuple[Sp, str]] = {
     "tagged": (TU, TU_SRC),
 }
 
-QUICK_WRAP = ["int", "float", "str_len", "lit_mix", "enum", "nt", "any", "sub_i"]
+QUICK_WRAP = ["int", "float", "str_len", "lit_mix", "enum", "enum_mix_s", "nt", "any", "sub_i"]
 
 
 @functools.lru_cache()
